@@ -161,6 +161,10 @@ def check(repo, col, tier):
     c11._edges(repo, col, "R-C20-views")
     # the populations the builders connect are the view's lists of global cell / compartment indices
     c11.listed_in_view(repo, col, "R-C20-views")
+    # the builders re-scope and sub-select the population views they are given: every selection returns a FRESH view through the one
+    # funnel (_at_nodes / _at_edges), `scope()` never changes the caller's own view
+    col.rule("R-C20-filter", "selection and re-scoping of the population views return fresh views", 12)
+    c11._filter(repo, col, "R-C20-filter")
     # ... and the populations are selected with `net.cell(<index>)`: every index form names the cells it says (a slice with its step)
     c11._index(repo, col, "R-C20-views")
 
